@@ -4,7 +4,7 @@ manifest - taken from the sub-agent's notes.md -, what was run, files, whether t
 import json, glob, os, re, subprocess
 
 HEAD = subprocess.run("git -C /repo rev-parse --short HEAD", shell=True, capture_output=True, text=True).stdout.strip()
-ROUND = {"a": 1, "b": 1, "c": 2, "d": 2, "e": 3, "f": 3, "g": 4, "h": 4}
+ROUND = {"a": 1, "b": 1, "c": 2, "d": 2, "e": 3, "f": 3, "g": 4, "h": 4, "i": 5, "j": 5}
 RUN = ("tools/seedeval.py: (1) scratch worktree of /repo HEAD: existing suite `go test -vet=off -count=1 ./...` with the patch applied; "
        "the demonstration test alone with the patch (must fail) and without it (must pass); (2) on /repo itself: `git apply patch.diff`, "
        "`./check <ID> quick` for the listed checks, `git checkout -- .`")
